@@ -467,6 +467,11 @@ func cheap(s string) bool {
 			est++
 		}
 	}
+	// nested unbounded repetitions over long sequences give automata of ten thousand states on the NFA route and ten
+	// seconds on the direct one (legitimately): at most three unbounded quantifiers per text
+	if strings.Count(s, "*")+strings.Count(s, "+") > 3 {
+		return false
+	}
 	return product <= 40 && est*product <= 400
 }
 
